@@ -547,6 +547,49 @@ ADDED = {
 }
 
 
+# third round (DESIGN.md section 12)
+ADDED3 = {
+    "C01": "keybindings with a same-named property of different value (key "
+           "propagation), embedded instances that have a path.",
+    "C02": "heterogeneous result lists, argument variants that change "
+           "response processing, type names with trailing control characters.",
+    "C03": "coincidence of namespaces inside one document, header values "
+           "with edge blanks.",
+    "C04": "embedded properties (NULL and valued), characters at the edges of "
+           "the XML Char production, retrieval flags on every class kind.",
+    "C05": "read-only observations between hashes (lazily initialised "
+           "slots), boundary datetimes in copy/pickle.",
+    "C06": "tzinfo carrier classes of datetime objects, real keybindings.",
+    "C07": "four datetime lexeme classes, hosts with a hyphen.",
+    "C08": "scope-key spelling of qualifier declarations, compiler sessions "
+           "with a changed declaration, nested embedded instances.",
+    "C09": "every optional part of every production in every combination, "
+           "file-name lexeme classes, later-call use of a failed class, nine "
+           "more value/dependency kinds.",
+    "C10": "instance class name vs path class name, 12 non-conforming "
+           "property shapes, PropertyList naming a key.",
+    "C11": "writes outside the target namespace before the failure, stale "
+           "CIM_Namespace instances, reference namespaces differing in case, "
+           "DeleteClass with a rejecting provider.",
+    "C12": "flavors on qualifier uses, reused / edited client class objects, "
+           "parameter lists of overriding methods, non-default namespaces.",
+    "C13": "three-level hierarchies in filters, same-key twins in two "
+           "namespaces, ModifyInstance of cross-namespace associations.",
+    "C14": "two servers (foreign contexts), OperationTimeout and "
+           "ContinueOnError dimensions.",
+    "C15": "association filter arguments, host-bearing source paths.",
+    "C16": "stop() watchdog and livelock detection: a defective stop() is an "
+           "event of the trace, not a hanging check.",
+    "C17": "368 (position, lexeme class) pairs inside the indication body.",
+    "C18": "mutation of handed-out lists, iterate-and-remove, paths carrying "
+           "a host, ids with a colon.",
+    "C19": "ExportIndication, provider-issued nested operations, values "
+           "outside the recorder's type list, untyped real keys in replies.",
+    "C20": "malformed-entry lexeme classes (Unicode digits, trailing "
+           "newline), case variants and repetitions of Values strings.",
+}
+
+
 def main():
     props = [json.loads(l) for l in open(os.path.join(VERIF, "properties.jsonl"))]
     checks = []
@@ -557,6 +600,8 @@ def main():
             tech, text, note, ref, engine = CHECKS[pid]
             if pid in ADDED:
                 text = text + " " + ADDED[pid]
+            if pid in ADDED3:
+                text = text + " Third round: " + ADDED3[pid]
             checks.append({
                 "property_id": pid,
                 "quick_cmd": "bin/check %s --tier quick" % pid,
